@@ -9,9 +9,9 @@ PROP = {
         "Mps.C15.unchecked_fields_counterexample", "Mps.C15.null_crash_counterexample",
         "Mps.C15.silent_empty_counterexample", "Mps.C15.alloc_unbounded_counterexample",
     ],
-    "generated": ["Mps.C15.gen_restore_tables"],
-    "suites": [{"name": "codec", "quick": 1, "thorough": 4}],
-    "propfields": {"codec": ["ok", "outcome"]},
+    "generated": ["Mps.C15.gen_restore_tables", "Mps.C15.gen_validators", "Mps.C15.validatePrime_head_lacks_primality"],
+    "suites": [{"name": "codec", "quick": 1, "thorough": 4}, {"name": "cmptree", "quick": 400, "thorough": 20000, "shards": 8}],
+    "propfields": {"codec": ["ok", "outcome"], "cmptree": ["outcome"]},
     "level": "proof",
     "level_text": "Proof about the decision logic of the restore paths over a field-tree abstraction of the encoding (field: absent / null / "
                   "degenerate / good): the guarded cmp Config.UnmarshalBinary restores only well-formed configs (non-zero secrets, valid "
@@ -25,7 +25,9 @@ PROP = {
                   "Exponent) is encoded with the documented encoder, restored, compared up to map order, judged rule by rule (Go predicate "
                   "and Lean judgement descOk) and used in a follow-up signing session with the other parties' originals; every field path x "
                   "23 malformations, truncations and seeded random corruptions are restored in a supervised child process.",
-    "level_note": "PARTIAL: the CBOR byte syntax belongs to the third-party decoder and is exercised, not modelled; the tree-level restore "
-                  "models are tied to the code by the guard tables only (no predictive differential per field class). n = 3, t = 1 material; "
+    "level_note": "PARTIAL: the CBOR byte syntax belongs to the third-party decoder and is exercised, not modelled; the tree-level model of "
+                  "cmp Config.UnmarshalBinary is tied predictively (suite cmptree: every field of a real encoding put into the classes "
+                  "good / absent / null / degenerate, duplicate / missing / anonymous records, thresholds around 0, n, 2^32 - the model's "
+                  "ok / err must equal the decoder's); the plain-decoder and message models are tied by the guard tables only. n = 3, t = 1 material; "
                   "other (n, t) are covered by the model's quantification, not by the round trips.",
 }
